@@ -88,13 +88,20 @@ def drive(args):
     sh = AG.shape_of(a, a['start'])
     for sa in itertools.product(*[range(s) for s in sh]):
         c = {'ag': {k: a[k] for k in ('nls', 'els', 'start', 'rules', 'wmp')}, 'sa': list(sa), 'out': 'ok', 'd': [{'rule': 1, 'parent': 0, 'via': 0, 'path': []}],
-             'assts': [[]], 'vit': [0, 0], 'dout': 'ok', 'dw': [0, 0], 'tag': ['recursive' if rec else 'nonrecursive', str(dtype).replace('torch.', '')] + (['fresh_label_objects'] if fresh else []) + (['chain'] if i % 8 == 7 else []) + (['start_declared_last'] if i % 4 == 2 else []) + (['query_then_add_rule'] if i % 8 == 5 else [])}
+             'assts': [[]], 'vit': [0, 0], 'dout': 'ok', 'dw': [0, 0], 'tag': ['recursive' if rec else 'nonrecursive', str(dtype).replace('torch.', '')] + (['fresh_label_objects'] if fresh else []) + (['chain'] if i % 8 == 7 else []) + (['start_declared_last'] if i % 4 == 2 else []) + (['query_then_add_rule'] if i % 4 == 1 else [])}
         try:
             # histories: the start symbol declared LAST (grammar created around another nonterminal, start set at the end);
             # a query BEFORE the last rule is added, then the judged query on the same object
-            hist = (i % 8 == 5) and len(a['rules']) >= 2 and not fresh
+            hist = (i % 4 == 1) and len(a['rules']) >= 2 and not fresh
+            defer = 0
+            if hist:
+                # prefer a rule that brings a NEW dependency between nonterminals (X -> .. Y ..) not present in the other rules
+                dep = lambda r: {(r['lhs'], e['lab']) for e in r['edges'] if not a['els'][e['lab']]['t']}
+                cands = [ri for ri, r in enumerate(a['rules'])
+                         if dep(r) - set().union(*[dep(q) for qi, q in enumerate(a['rules']) if qi != ri])]
+                defer = [rng.choice(cands)] if cands else 1
             g, info = AG.build_fgg(a, 'mp', dtype, implicit_ids=(i % 3 == 0), fresh_labels=fresh, start_last=(i % 4 == 2),
-                                   defer_rules=1 if hist else 0)
+                                   defer_rules=defer)
             sr = fggs.ViterbiSemiring(dtype=dtype)
             if hist:
                 try:
